@@ -164,7 +164,7 @@ func genAd(t *rapid.T) C07Msg {
 }
 
 func genData(t *rapid.T) C07Msg {
-	names := []string{"sut", "w", "w2", "h", "p1", "nobody-knows-this-name", ""}
+	names := []string{"sut", "sut", "w", "w", "w2", "h", "p1", "nobody-knows-this-name", ""}
 	svcs := []string{"ping", "unreach", "echo", "nope", "", "control", "\xff\xfe"}
 	from, to := rapid.SampledFrom(names).Draw(t, "from"), rapid.SampledFrom(names).Draw(t, "to")
 	fs, ts := rapid.SampledFrom(svcs).Draw(t, "fs"), rapid.SampledFrom(svcs).Draw(t, "ts")
@@ -186,8 +186,9 @@ func genData(t *rapid.T) C07Msg {
 	if ts == "" || ts == "\xff\xfe" {
 		class = "data:odd-service"
 	}
-	if rapid.IntRange(0, 3).Draw(t, "truncate") == 0 {
-		n := rapid.IntRange(1, 40).Draw(t, "len")
+	if rapid.IntRange(0, 2).Draw(t, "truncate") == 0 {
+		// header field boundaries (type+ttl 4, hashes 12 and 20, service names 28 and 36) are where length guards go wrong
+		n := rapid.OneOf(rapid.SampledFrom([]int{1, 2, 3, 4, 5, 11, 12, 13, 19, 20, 21, 27, 28, 29, 32, 35, 36, 37}), rapid.IntRange(1, 40)).Draw(t, "len")
 		if n < len(pkt) {
 			pkt = pkt[:n]
 			class = "data:truncated-header"
